@@ -76,6 +76,7 @@ def slotsE : Except Err (List Slot) → Json := exceptJson slotsJson
 inductive RankedRule where
   | positional (sc : Scorer)
   | bucklin
+  | bucklinWhole
   | copeland (so : Bool)
   | minimax (sc : Condorcet.Scorer)
   | schulze
@@ -87,7 +88,8 @@ def rankedRule (rule : String) (j : Json) : Except String (Option RankedRule) :=
   | "geometric" => do pure (some (.positional (.geometric (← j.getObjValAs? Nat "param"))))
   | "modified_borda" => pure (some (.positional .modifiedBorda))
   | "fixed_top" => do pure (some (.positional (.fixedTop (← j.getObjValAs? Int "param"))))
-  | "bucklin" | "bucklin_whole" => pure (some .bucklin)
+  | "bucklin" => pure (some .bucklin)
+  | "bucklin_whole" => pure (some .bucklinWhole)
   | "copeland" => do pure (some (.copeland ((← j.getObjValAs? Nat "param") != 0)))
   | "minimax_wv" => pure (some (.minimax .winningVotes))
   | "minimax_margins" => pure (some (.minimax .margins))
@@ -96,7 +98,8 @@ def rankedRule (rule : String) (j : Json) : Except String (Option RankedRule) :=
 
 def evalRanked : RankedRule → RProfile → Except Err (List Slot)
   | .positional sc, p => evalPositional sc p
-  | .bucklin, p => evalBucklin p
+  | .bucklin, p => evalBucklinSplit p
+  | .bucklinWhole, p => evalBucklin p
   | .copeland so, p => .ok (evalCopeland so p)
   | .minimax sc, p => .ok (evalMinimax sc p)
   | .schulze, p => .ok (evalSchulze p)
